@@ -130,10 +130,11 @@ CLI = ("The client library is specified in spec/Cli.tla as an atomic machine ove
 TEXT["C16"] = dict(ref="DESIGN.md 4 C16", technique="TLC model checking of the PlusCal client skeleton (CliConc.tla) + TLC-generated client scripts executed against the real client with a scripted router + TLC trace validation (TraceCli.tla)",
     level=CLI + "For C16 the scripts mix concurrent Subscribe/Unsubscribe/Register/Unregister/acknowledged Publish/Call from four goroutines with replies in any order, late, duplicated, of the wrong type, "
     "for unknown ids and at the timeout instant; progressive results with and without a progress handler; context cancellation followed by ERROR, by other replies, by nothing; INVOCATIONs with fresh, "
-    "old and unknown ids, with timeouts, INTERRUPTs in any order, handlers answering or not.",
+    "old and unknown ids, with timeouts, INTERRUPTs in any order, handlers answering or not; CallProgressive fed with one to three chunks whose feed ends with progress false, with the option unset or with "
+    "an error of the callback (Cli!CallProgFx); SendProgress from running handlers whose caller does or does not receive progress (Cli!SendProgFx).",
     note="Bounded: 4 application goroutines, 2 topics, 2 procedures, scripts of <= 18 steps, response timeouts 200/1000 ms. Trusted: TLC, the scripted router and result classification in "
-    "harness/client_test.go, testing/synctest. If the router never answers a CANCEL the reply-timeout error is what the call returns (statement's first sentence). CallProgressive, SendProgress and payload "
-    "passthru on the sending side are not generated. Schedules inside a step are those of the Go scheduler in the bubble; exhaustive interleavings only on CliConc.tla.")
+    "harness/client_test.go, testing/synctest. If the router never answers a CANCEL the reply-timeout error is what the call returns (statement's first sentence). Payload "
+    "passthru on the sending side is not generated. Schedules inside a step are those of the Go scheduler in the bubble; exhaustive interleavings only on CliConc.tla.")
 TEXT["C17"] = dict(ref="DESIGN.md 4 C17", technique="TLC enumeration of hostile router messages (Hostile.tla) and TLC-generated scripts with hostile steps, disconnects and Close, executed against the real client in isolated workers + TLC trace validation (TraceCli.tla) + TLC model checking of CliConc.tla",
     level=CLI + "For C17 every mutant of spec/Hostile.tla (router-to-client message template x detail/field position x value kind, wrong-role and unknown message types, with and without an abrupt "
     "disconnect) is sent to a client that holds a subscription, a registration and a pending progressive call; afterwards an event, an invocation, the call's results and a publish must work exactly per "
